@@ -2,7 +2,7 @@
    handler, and sequences of cheatcode calls against Foundry's one-input-at-a-time reading. *)
 From Coq Require Import ZArith List Bool String Ascii Lia.
 From HV Require Import Spec.AssertSpec Model.AssertModel Proofs.AssertProofs Proofs.AssertCondProofs
-  Gen.GenAssertArms Gen.GenExcHierarchy Gen.GenRunExcepts.
+  Gen.GenAssertArms Gen.GenExcHierarchy Gen.GenRunExcepts Gen.GenJumpi.
 Import ListNotations.
 Open Scope list_scope.
 Open Scope Z_scope.
@@ -54,9 +54,11 @@ Section SeqProofs.
   Variable Input : Type.
   Variable check : path Input -> cond Input -> sat_result.
   Variable lit_false : cond Input -> bool.
+  Variable loop : Z.
   Hypothesis check_sound :
     forall p c, check p c = Unsat -> forall i, sat_path Input p i = true -> c i = false.
   Hypothesis lit_false_sound : forall c, lit_false c = true -> forall i, c i = false.
+  Hypothesis loop_pos : 0 < loop.
 
   Definition failb (outs : list (outcome Input)) (i : Input) : bool :=
     existsb (fun o => reported_failure Input o i) outs.
@@ -155,9 +157,40 @@ Section SeqProofs.
   Proof. intros pr. fin. Qed.
   Lemma good_end : forall pr, good false pr false pr VPass.
   Proof. intros pr. fin. Qed.
+  Lemma good_empty : forall v, good false false false false v.
+  Proof. intros v. fin. Qed.
+  Lemma good_false : forall f c s v, good f c s false v -> f = false /\ c = false /\ s = false.
+  Proof.
+    intros f c s v G. unfold good in G. cbn [andb] in G. destruct G as [Gf [Gc [Gs _]]].
+    split; [exact Gf|]. split.
+    - destruct c; [destruct (Gc eq_refl); discriminate|reflexivity].
+    - destruct s; [destruct (Gs eq_refl); discriminate|reflexivity].
+  Qed.
+  (* a two-way branch: the two sides partition the inputs of the path *)
+  Lemma good_branch : forall f1 c1 s1 f2 c2 s2 pr ci v,
+    good f1 c1 s1 (pr && ci) v -> good f2 c2 s2 (pr && negb ci) v ->
+    good (f1 || f2) (c1 || c2) (s1 || s2) pr v.
+  Proof.
+    intros f1 c1 s1 f2 c2 s2 pr ci v G1 G2. destruct pr, ci; cbn [andb negb] in G1, G2.
+    - apply good_false in G2. destruct G2 as (-> & -> & ->). rewrite !orb_false_r. exact G1.
+    - apply good_false in G1. destruct G1 as (-> & -> & ->). cbn [orb]. exact G2.
+    - apply good_false in G1. apply good_false in G2.
+      destruct G1 as (-> & -> & ->). destruct G2 as (-> & -> & ->). apply good_empty.
+    - apply good_false in G1. apply good_false in G2.
+      destruct G1 as (-> & -> & ->). destruct G2 as (-> & -> & ->). apply good_empty.
+  Qed.
+
+  (* which sides SEVM.jumpi follows on the first visit: the ones the oracle does not refute *)
+  Lemma jumpi_follow : forall ra rb,
+    d_follow_true (jumpi_decide (sat_code ra) (sat_code rb) 0 0 loop) = negb (is_unsat ra)
+    /\ d_follow_false (jumpi_decide (sat_code ra) (sat_code rb) 0 0 loop) = negb (is_unsat rb).
+  Proof.
+    intros ra rb. destruct loop as [|lp|lp]; try (exfalso; revert loop_pos; clear; lia).
+    destruct ra, rb; split; reflexivity.
+  Qed.
 
   Lemma run_prog_good : forall p e, Forall ok_step p -> nofail e ->
-    exists outs, run_prog Input check lit_false e p = Some outs /\
+    exists outs, run_prog Input check lit_false loop e p = Some outs /\
       forall i, good (failb outs i) (contb outs i) (stuckb outs i) (prior e i)
                      (foundry_run Input i (map (pstep_of Input) p)).
   Proof.
@@ -167,7 +200,7 @@ Section SeqProofs.
       cbn [existsb reported_failure continues_with reported_stuck orb]. rewrite ?orb_false_r.
       apply good_end.
     - inversion Hok as [|k' rest' Hk Hrest]; subst k' rest'.
-      destruct k as [c|c|cls].
+      destruct k as [c|c|c|cls].
       + (* vm.assert* returning a condition *)
         destruct (IH e Hrest Hnf) as [outs_r [Hrun Hgood]].
         cbn [run_prog cheat_step map pstep_of foundry_run]. unfold assert_step.
@@ -202,6 +235,42 @@ Section SeqProofs.
           eexists. split; [reflexivity|]. intros i.
           apply good_assume. specialize (Hgood i). unfold prior in *. subst e'.
           cbn [ex_path] in Hgood. rewrite sat_path_app in Hgood. exact Hgood.
+      + (* a two-way branch: SEVM.jumpi *)
+        set (e1 := mkExec Input (ex_path Input e ++ [c]) (ex_frames Input e)).
+        set (e2 := mkExec Input (ex_path Input e ++ [cnot Input c]) (ex_frames Input e)).
+        assert (nofail e1) as Hnf1 by exact Hnf. assert (nofail e2) as Hnf2 by exact Hnf.
+        destruct (IH e1 Hrest Hnf1) as [o1 [Hr1 Hg1]]. destruct (IH e2 Hrest Hnf2) as [o2 [Hr2 Hg2]].
+        assert (forall i, prior e1 i = prior e i && c i) as P1
+          by (intros i; unfold prior, e1; cbn [ex_path]; apply sat_path_app).
+        assert (forall i, prior e2 i = prior e i && negb (c i)) as P2
+          by (intros i; unfold prior, e2; cbn [ex_path]; apply sat_path_app).
+        cbn [run_prog cheat_step map pstep_of foundry_run]. unfold jumpi_step. cbv zeta.
+        destruct (jumpi_follow (check (ex_path Input e) c) (check (ex_path Input e) (cnot Input c))) as [Ft Ff].
+        rewrite Ft, Ff. fold e1 e2.
+        destruct (is_unsat (check (ex_path Input e) c)) eqn:U1;
+          destruct (is_unsat (check (ex_path Input e) (cnot Input c))) eqn:U2;
+          cbn [negb app map opt_concat]; rewrite ?Hr1, ?Hr2, ?app_nil_r.
+        * (* both refuted: the path has no input *)
+          eexists. split; [reflexivity|]. intros i.
+          assert (prior e i = false) as ->.
+          { destruct (prior e i) eqn:Hp; [|reflexivity].
+            pose proof (unsat1 e c U1 i Hp) as A. pose proof (unsat2 e c U2 i Hp) as B. congruence. }
+          apply good_empty.
+        * (* only the fall-through side *)
+          eexists. split; [reflexivity|]. intros i. specialize (Hg2 i). rewrite P2 in Hg2.
+          assert (prior e i && negb (c i) = prior e i) as E.
+          { destruct (prior e i) eqn:Hp; [|reflexivity]. rewrite (unsat1 e c U1 i Hp). reflexivity. }
+          rewrite E in Hg2. exact Hg2.
+        * (* only the jump side *)
+          eexists. split; [reflexivity|]. intros i. specialize (Hg1 i). rewrite P1 in Hg1.
+          assert (prior e i && c i = prior e i) as E.
+          { destruct (prior e i) eqn:Hp; [|reflexivity]. rewrite (unsat2 e c U2 i Hp). reflexivity. }
+          rewrite E in Hg1. exact Hg1.
+        * (* both sides *)
+          eexists. split; [reflexivity|]. intros i. unfold failb, contb, stuckb.
+          rewrite !existsb_app. apply good_branch with (ci := c i).
+          -- rewrite <- P1. apply Hg1.
+          -- rewrite <- P2. apply Hg2.
       + (* an unsupported cheatcode: HalmosException *)
         cbn in Hk. cbn [run_prog cheat_step map pstep_of foundry_run]. rewrite Hk.
         eexists. split; [reflexivity|]. intros i. cbn [app].
@@ -215,13 +284,15 @@ End SeqProofs.
 
 (* the statement quoted in Props/C13.v *)
 Lemma seq_exact :
-  forall (Input : Type) (check : path Input -> cond Input -> sat_result) (lit_false : cond Input -> bool),
+  forall (Input : Type) (check : path Input -> cond Input -> sat_result) (lit_false : cond Input -> bool)
+         (loop : Z),
     (forall p c, check p c = Unsat -> forall i, sat_path Input p i = true -> c i = false) ->
     (forall c, lit_false c = true -> forall i, c i = false) ->
+    0 < loop ->
     forall (p : list (cheat Input)) (e : exec Input),
       Forall (fun k => match k with KRaise _ cls => catch_action cls = Some AStuck | _ => True end) p ->
       (forall c, In c (ex_frames Input e) -> is_global_fail_set c = false) ->
-      exists outs, run_prog Input check lit_false e p = Some outs /\
+      exists outs, run_prog Input check lit_false loop e p = Some outs /\
         forall i,
           let v := foundry_run Input i (map (pstep_of Input) p) in
           let pr := sat_path Input (ex_path Input e) i in
@@ -234,8 +305,8 @@ Lemma seq_exact :
           /\ (pr = true -> v = VPass -> passes = true)
           /\ (pr = true -> v = VUnsupported -> stuck = true).
 Proof.
-  intros Input check lf Hc Hl p e Hok Hnf.
-  destruct (run_prog_good Input check lf Hc Hl p e Hok Hnf) as [outs [Hrun Hgood]].
+  intros Input check lf loop Hc Hl Hlp p e Hok Hnf.
+  destruct (run_prog_good Input check lf loop Hc Hl Hlp p e Hok Hnf) as [outs [Hrun Hgood]].
   exists outs. split; [exact Hrun|]. intros i. cbv zeta.
   specialize (Hgood i). unfold good, failb, contb, stuckb, prior in Hgood.
   destruct Hgood as [Hf [H2 [H3 [H4 H5]]]].
@@ -254,7 +325,7 @@ Lemma escape_loses_failures :
     (forall c, lit_false c = true -> forall j, c j = false) /\
     sat_path bool (ex_path bool e) i = true /\
     foundry_run bool i (map (pstep_of bool) p) = VFail /\
-    run_prog bool check lit_false e p = None.
+    run_prog bool check lit_false 2 e p = None.
 Proof.
   exists (fun _ _ => Unknown), (fun _ => false), (mkExec bool [] [Ctx ENone []]),
     [KAssert bool (fun x => x); KRaise bool "UnicodeDecodeError"], false.
@@ -290,7 +361,7 @@ Lemma seq_escape_refuted :
     (forall c, lit_false c = true -> forall j, c j = false) /\
     sat_path bool (ex_path bool e) i = true /\
     foundry_run bool i (map (pstep_of bool) p) = VFail /\
-    run_prog bool check lit_false e p = None.
+    run_prog bool check lit_false 2 e p = None.
 Proof. exact (conj eq_refl (conj unicode_escapes escape_loses_failures)). Qed.
 
 (* ================================================================== 3. what a table handler can raise *)
@@ -392,4 +463,18 @@ Proof.
   - contradiction Hn. reflexivity.
   - right. left. f_equal. exact (run_handler_raise _ _ _ E).
   - right. right. reflexivity.
+Qed.
+
+(* without soundness of the oracle a failure is missed: assertTrue(x) with an oracle that says
+   "not x" is unsatisfiable *)
+Lemma seq_unsound_oracle_misses :
+  exists (check : path bool -> cond bool -> sat_result) (e : exec bool) (p : list (cheat bool)) (i : bool) outs,
+    sat_path bool (ex_path bool e) i = true /\
+    foundry_run bool i (map (pstep_of bool) p) = VFail /\
+    run_prog bool check (fun _ => false) 2 e p = Some outs /\
+    existsb (fun o => reported_failure bool o i) outs = false.
+Proof.
+  exists (fun (_ : path bool) (c : cond bool) => if c true then Sat else Unsat), (mkExec bool [] [Ctx ENone []]),
+    [KAssert bool (fun x => x)], false.
+  eexists. vm_compute. repeat split; reflexivity.
 Qed.
